@@ -298,3 +298,80 @@ Definition setup_write (ps id : Z) : option bytes :=
   | Some (w, _) => Some w
   | None => None
   end.
+
+(* ------------------------------------------------------------------ 5. sends between received packets *)
+
+(* One goroutine per channel sends (QueuePackage ... SendPackage / SendRemainingPackets) or calls Channel.Reset while
+   the reader goroutine routes packets: between two packets of a package addressed to a channel the client may
+   finish a send on that very channel.  Code mirrored: Channel.reset() (run by Reset and, deferred, at the end of
+   SendRemainingPackets / SendPackage) sets CurrentHeaderType = NORMAL, queueTx.Reset(), lastPkgTx = nil - it touches
+   the SEND side only; queueRx (the packets of a not yet complete package) belongs to the reader.  The state is the
+   pair of the routing map (section 1) and the send states (section 3); a received packet or a close changes the
+   first, a send or a reset the second. *)
+Inductive hop :=
+| HRx (o : rop)                                      (* the reader routes a packet / a channel is closed *)
+| HSend (id typ : Z) (pkgs : list (list bytes))      (* one message: every package queued, then the flush + reset *)
+| HReset (id : Z).                                   (* Channel.Reset *)
+
+Inductive hout :=
+| HoRx (x : rout)
+| HoTx (code : Z) (ws : list bytes).                 (* 0 ok | 2 ErrChannelClosed | -1 panic ; the transport writes *)
+
+Definition hstate := (cmap * tmap)%type.
+
+Definition hist_op (need nenv : nat) (ps : Z) (s : hstate) (h : hop) : hout * hstate :=
+  match h with
+  | HRx o =>
+      let '(x, m1) := route_op need nenv (fst s) o in
+      (HoRx x, (m1, match o with OClose id => tm_del id (snd s) | OPkt _ => snd s end))
+  | HSend id typ pkgs =>
+      match tm_find id (snd s) with
+      | None => (HoTx 2 [], s)
+      | Some st => match send_message ps id typ pkgs st with
+                   | None => (HoTx (-1) [], s)
+                   | Some (ws, st') => (HoTx 0 ws, (fst s, tm_set id st' (snd s)))
+                   end
+      end
+  | HReset id =>
+      match tm_find id (snd s) with
+      | None => (HoTx 0 [], s)
+      | Some st => (HoTx 0 [], (fst s, tm_set id {| tq := reset (tq st); tnr := tnr st |} (snd s)))
+      end
+  end.
+
+Fixpoint hist_run (need nenv : nat) (ps : Z) (s : hstate) (hs : list hop) : list hout * hstate :=
+  match hs with
+  | [] => ([], s)
+  | h :: r => let '(x, s1) := hist_op need nenv ps s h in
+              let '(xs, s2) := hist_run need nenv ps s1 r in (x :: xs, s2)
+  end.
+
+(* the history with the send / reset events erased; the receive-side results of a run *)
+Fixpoint rx_ops (hs : list hop) : list rop :=
+  match hs with
+  | [] => []
+  | HRx o :: r => o :: rx_ops r
+  | _ :: r => rx_ops r
+  end.
+
+Fixpoint rx_outs (xs : list hout) : list rout :=
+  match xs with
+  | [] => []
+  | HoRx x :: r => x :: rx_outs r
+  | HoTx _ _ :: r => rx_outs r
+  end.
+
+(* the history with the received packets erased (closes stay: they end a channel's sending); the send-side results *)
+Fixpoint tx_hops (hs : list hop) : list hop :=
+  match hs with
+  | [] => []
+  | HRx (OPkt _) :: r => tx_hops r
+  | h :: r => h :: tx_hops r
+  end.
+
+Fixpoint tx_outs (xs : list hout) : list (Z * list bytes) :=
+  match xs with
+  | [] => []
+  | HoTx c ws :: r => (c, ws) :: tx_outs r
+  | HoRx _ :: r => tx_outs r
+  end.
